@@ -117,7 +117,11 @@ CFG = {
             "are loaded before the mount), boundaries NESTED in each other (the inner one flipping while the outer one shows its fallback: 2/3 of the S views start with such a pair), under Show / Either / "
             "the rows of a <For> and around them, a <Transition> at a fixed place over fixed structure; histories of 4-16 writes / completions (reloads that overlap, complete in either order, are "
             "superseded while in flight), a disposal in an eighth; every op runs the executor to idle and the observable is the DOM without ids (`sdom=`); oracle on the real code: a FRESH mount with "
-            "resources in the same state (loaded with the same value / pending for ever), for views with a <Transition> the model only; "
+            "resources in the same state (loaded with the same value / pending for ever), for views with a <Transition> the model only; HALF of the S views without a Transition have POLL-GRANULAR histories: "
+            "bursts of `pset` / `presolve` / `popen` (write / complete / open WITHOUT running the executor; only the resources' own tasks run) and `poll i` (one poll of the i-th ready task of the view, any order), "
+            "then `idle`; `lw <expr>` leaves = `move || Suspend::new(async { gates[v mod 4].wait().await })`: a Suspend over a plain future picked by a signal (loads superseded before they complete, completing "
+            "in any order), observed at idle points where every live `lw` leaf selects an opened gate; reactive attributes (`ad`) and styles (`ay`) are OPTIONAL values everywhere (`None` at 0: Some->None "
+            "across an outer re-render of the same shape); "
             "a tenth of the other cases with the older <Suspense> shape (over an "
             "AsyncDerived of signals, executor run to idle between writes) or the old <ErrorBoundary>-over-Either shape at the top of the view (implementation-side oracle only, "
             "the model prints `skip`); histories of 3-15 writes with `poll i` (1-3 polls of the i-th ready task) or `idle` or nothing in between, a sixth "
@@ -174,6 +178,10 @@ CFG = {
         "(F-C04-2, props/C04.known; the model predicts it: class read-disposed); the untouched-nodes oracle is not applied to these views (fresh-render oracle at every idle point is)",
         "error boundaries: two defects found in this class are repaired in /repo (ffdfcd9 F-C04-3, 6685c08 F-C04-4; regression cases corpus/C04/F-C04-{3,4}-*.ops; the generator does not avoid "
         "them). Views with boundaries carry no component-local state (`sc`) in generated cases",
+        "poll-granular S histories: the resources' own tasks run as soon as they are woken (the idle-level model of the resources assumes it); inside one burst of un-run operations no write follows a "
+        "completion (F-C04-7: a re-rendered Suspend forwards its sources only after `Executor::tick()` and misses a reload that happens within that tick — real defect, repair hooks/fix-c04-7.patch; the "
+        "restriction is one constant in gen.rs and goes when the repair is committed); `lw` leaves sit where no enclosing effect re-renders or drops them (F-C04-6: a leaf nested in an inner effect of a "
+        "re-rendered region re-runs as a zombie and keeps the boundary in its fallback; same root as F-C04-2); no Transition in poll-granular histories (which pending episode its effect sees depends on the order)",
         "S views (suspense): resources read signals only; a Suspend leaf lives exactly as long as its boundary (no branch / row between a boundary and its leaves — a leaf that goes away while its boundary "
         "stays makes the boundary show its fallback during the resource's NEXT fetch although nothing below it reads the resource any more: F-C04-5, props/C04.known, corpus/C04/F-C04-5-*.ops.pending); "
         "a <Transition> sits at a fixed place over fixed structure; no component-local state and no error boundaries in S views; the executor runs to idle after every op (partial polling of async "
